@@ -62,6 +62,7 @@ CLONE = {"std::clone::Clone::clone", "std::borrow::ToOwned::to_owned", "std::str
          "std::option::Option::<&mut T>::cloned", "std::option::Option::<&mut T>::copied"}
 
 
+FN_CALL_DECLS = {"std::ops::Fn::call", "std::ops::FnMut::call_mut", "std::ops::FnOnce::call_once"}
 _OPT, _RES = "std::option::Option", "std::result::Result"
 _O, _R = ("Some", "None"), ("Ok", "Err")
 # decl -> what the combinator returns on each variant of its receiver
@@ -612,6 +613,12 @@ class Walker:
                 if H is not None:
                     ev["inlined"] = True
                     outcomes = self._walk_into(H, {i + 1: a for i, a in enumerate(args)}, refine, mem, bb, cnt)
+                elif self.inline is not None and decl in FN_CALL_DECLS and len(args) == 2 and strip(args[0])[0] in ("closure", "fn") \
+                        and strip(args[1])[0] == "tuple":
+                    # `f(x)` where f is a closure value known on this path (a parameter bound by inlining, a local)
+                    outcomes = self._apply(args[0], list(strip(args[1])[1]), refine, mem, bb, cnt)
+                    if outcomes is not None:
+                        ev["modelled"] = True
                 elif self.inline is not None and decl in COMBINATORS:
                     outcomes = self._combinator(decl, args, refine, mem, bb, cnt, t["line"])
                     if outcomes is not None:
